@@ -589,6 +589,11 @@ func (e *EdgeQuery) initQueue() {
 	if len(e.indexCovering) == 0 {
 		// We delay iterator initialization until now to make queries on very
 		// small indexes a bit faster (i.e., where brute force is used).
+		// NewShapeIndexIterator does not apply pending index updates (unlike
+		// ShapeIndex.Iterator), so do that first: the iterator below is used
+		// right away and must not read an index that another goroutine's
+		// first query is still building.
+		e.index.maybeApplyUpdates()
 		e.iter = NewShapeIndexIterator(e.index)
 	}
 
